@@ -9,6 +9,7 @@ B. Seeded random settings and advance schedules are run on real exchangers, logg
 Time quantum: 0.5 s (all stamps and durations are exact binary floats).
 """
 import random
+from concurrent.futures import ThreadPoolExecutor
 
 from .. import env, graph, replay, tlc, trace
 from ..replay import Divergence
@@ -133,6 +134,38 @@ def _rec(s):
     return {"k": "none"} if s is None else {"k": "q", "v": s}
 
 
+def check_constructors(ctx, grid):
+    """SettingsResolved for the three exchange classes: every (timeout, redo) combination of the model's initial
+    states constructs, and the attributes are the given values or the class's own defaults"""
+    env.use_repo()
+    from ioflo.aid.timing import Stamper
+    from ioflo.aio.proto import exchanging
+    n = 0
+    for cname in ("Exchange", "Exchanger", "Exchangent"):
+        cls = getattr(exchanging, cname)
+        for (tset, rset) in grid:
+            kw = {}
+            if setting(tset) is not None:
+                kw["timeout"] = setting(tset)
+            if setting(rset) is not None:
+                kw["redoTimeout"] = setting(rset)
+            n += 1
+            try:
+                x = cls(stack=StubStack(Stamper(stamp=0.0)), device=StubDevice(), **kw)
+            except Exception as ex:
+                ctx.diverge(Divergence("C38", "exception", "Create", replay.innermost_ioflo_frame(ex.__traceback__),
+                                       "%s: %s" % (type(ex).__name__, str(ex)[:200]),
+                                       steps=[{"action": "Create", "class": cname, "kwargs": kw}]))
+                continue
+            want = (kw.get("timeout", cls.Timeout), kw.get("redoTimeout", cls.RedoTimeout))
+            got = (x.timeout, x.redoTimeout)
+            if want != got or x.done or x.failed:
+                ctx.diverge(Divergence("C38", "table-mismatch", "Create", cname,
+                                       "constructed with %r: expected (timeout, redoTimeout) %r got %r" % (kw, want, got),
+                                       steps=[{"action": "Create", "class": cname, "kwargs": kw}], expected=want, actual=got))
+    return n
+
+
 def _random_trace(rng, deft, defr, nsteps):
     ts = rng.choice([None, 0, 1, 2, 3, 5, 8, 13])
     rs = rng.choice([None, 0, 1, 2, 3, 4, 6])
@@ -199,11 +232,15 @@ def run_c38(ctx):
     maxstarts = ctx.pick(2, 3)
     defaults = [(4, 1), (3, 2)]         # stock Exchanger (2.0 s, 0.5 s) and a subclass overriding both
     total = cov = 0
-    for (deft, defr) in defaults:
+    def model(d):
+        dot = env.subdir("c38") + "/def%d_%d.dot" % d
+        return dot, tlc.run("Exchange", cfg_text(settings, d[0], d[1], maxtime, maxstarts, steps), spec_dir=SPEC_DIR, dump_dot=dot,
+                            deadlock=False, tag="c38def%d_%d" % d, workers=max(1, env.NCPU // 2))
+
+    with ThreadPoolExecutor(max_workers=2) as ex:
+        ran = list(ex.map(model, defaults))
+    for (deft, defr), (dot, res) in zip(defaults, ran):
         label = "def%d_%d" % (deft, defr)
-        dot = env.subdir("c38") + "/%s.dot" % label
-        res = tlc.run("Exchange", cfg_text(settings, deft, defr, maxtime, maxstarts, steps), spec_dir=SPEC_DIR, dump_dot=dot,
-                      deadlock=False, tag="c38" + label)
         ctx.add_model(res, "Exchange/" + label, {"Settings": settings, "DefTimeout": deft, "DefRedo": defr, "MaxTime": maxtime,
                                                  "MaxStarts": maxstarts, "Steps": steps})
         if not res.ok:
@@ -218,6 +255,9 @@ def run_c38(ctx):
             raise tlc.TlcError("vacuous graph %s: outcomes %s" % (label, sorted(outcomes)))
         if not any(s["res"] == "fail" and s["sent"] > 1 for s in g.states.values()):
             raise tlc.TlcError("vacuous graph %s: no failure after a retransmission" % label)
+        if (deft, defr) == defaults[0]:
+            grid = sorted({(replay.norm(g.states[i]["tset"]), replay.norm(g.states[i]["rset"])) for i in g.inits}, key=repr)
+            ctx.extra["constructor_cases"] = check_constructors(ctx, grid)
         paths = graph.edge_cover(g, max_len=60)
         traces = replay.graph_paths_to_traces(g, paths)
         n, divs = replay.replay("C38", traces, lambda init, d=(deft, defr): ExchangeAdapter(init["tset"], init["rset"], d[0], d[1]))
@@ -261,7 +301,7 @@ def run_c38(ctx):
         for (i, err, name, tr) in out.model_errors[:5]:
             ctx.diverge(Divergence("C38", "rejected", name or err, "trace-invariant",
                                    "invariant %s violated on a recorded history" % name, steps=trs[i]))
-    if acc and not {"idle", "redo", "fail", "finish", "start"} <= set(seen):
+    if acc and not ctx.divs and not {"idle", "redo", "fail", "finish", "start"} <= set(seen):
         raise tlc.TlcError("vacuous random histories: outcomes %s" % sorted(seen))
     ctx.exhaustive = (cov == total and total > 0)
     ctx.extra.update({"graph_edges": total, "edges_replayed": cov, "random_traces": ntr, "random_traces_accepted": acc,
